@@ -199,7 +199,7 @@ func genCfg(r *Rng, kinds []string, tier string) Cfg {
 		cfg.VCmp = strCmps[r.Weighted(5, 2, 2, 2, 2, 2, 1)]
 	}
 	if cfg.Kind == "btree" {
-		cfg.Order = []int{3, 3, 3, 4, 4, 5, 5, 6, 7, 8, 9, 10, 11, 12, 16, 17, 32, 48, 64, 100, 256}[r.Intn(21)]
+		cfg.Order = []int{3, 3, 3, 4, 4, 5, 5, 6, 7, 8, 9, 10, 11, 12, 16, 17, 32, 48, 64, 100, 256, 300, 1024}[r.Intn(23)]
 	}
 	if cfg.Kind == "circularbuffer" {
 		cfg.Cap = []int{1, 1, 2, 2, 3, 3, 4, 5, 6, 9}[r.Intn(10)]
